@@ -727,6 +727,21 @@ func genC03(e *emitter, r *rng, thorough bool) {
 		// hash longer than 32 bytes: only the first 32 count
 		emitV("hash.long", q, append(append([]byte{}, h...), 9, 9, 9), sig.R, sig.S)
 		emitV("hash.short", q, h[:31], sig.R, sig.S)
+		// after a positive answer: the same bytes with the boundary between two adjacent arguments moved (hash | r | s).  A
+		// memo of accepted (hash, r, s, key) tuples keyed by their unframed concatenation cannot tell these apart.  The
+		// honest call is repeated so that every shard (ops are dealt round-robin to at most 32 processes) has seen it.
+		if rb, sb := sig.R.Bytes(), sig.S.Bytes(); len(rb) > 4 && len(sb) > 4 {
+			for t := 0; t < 32; t++ {
+				emitV("reframe.honest", q, h, sig.R, sig.S)
+			}
+			cat := func(a, b []byte) []byte { return append(append([]byte{}, a...), b...) }
+			for _, j := range []int{1, 2, len(rb) / 2, len(rb) - 1} {
+				emitV("reframe.hash|r", q, cat(h, rb[:j]), new(big.Int).SetBytes(rb[j:]), sig.S)
+				emitV("reframe.r|s", q, h, new(big.Int).SetBytes(rb[:len(rb)-j]), new(big.Int).SetBytes(cat(rb[len(rb)-j:], sb)))
+				emitV("reframe.r|s.b", q, h, new(big.Int).SetBytes(cat(rb, sb[:j])), new(big.Int).SetBytes(sb[j:]))
+				emitV("reframe.hash|r.b", q, h[:32-j], new(big.Int).SetBytes(cat(h[32-j:], rb)), sig.S)
+			}
+		}
 		// constructed relations: choose u1,u2, R = u1 G + u2 Q, r = x(R) mod N, s = r/u2, e = u1*s
 		construct := func(class string, u1, u2 *big.Int) {
 			if modN(u2).Sign() == 0 {
